@@ -123,6 +123,10 @@ func (g *exprGen) Gen(typ string, depth int, wide bool) []TExpr {
 				// a self.* traversal followed by another reference inside expressions only the generic fallback handles
 				new(builder).e(selfOr(g, subRef())).s(`[`).e(subRef()).s(`]`).done("self-indexed-by-reference"),
 				new(builder).e(subRef()).s(`[`).e(selfOr(g, subRef())).s(`[*].id[`).e(subRef()).s(`]]`).done("self-splat-in-index-key"),
+				// a call whose declared return type does not convert to the type expected here: its arguments are
+				// written references all the same (0.11-style "${split(...)}", or a plainly mistyped value)
+				new(builder).s("\"${vf(").e(subRef()).s(", ").e(subRef()).s(")}\"").done("wrapped-call-returning-list"),
+				new(builder).s(`vf(`).e(subRef()).s(`, `).e(subRef()).s(`)`).done("call-of-inconvertible-type"),
 				// a call of a function the path context does not know: its arguments are still written references
 				new(builder).s(`nosuchfn(`).e(subRef()).s(`)`).done("unknown-call"),
 				new(builder).s(`fn(nosuchfn(`).e(subRef()).s(`, `).e(subRef()).s(`))`).done("unknown-call-nested"),
@@ -147,6 +151,7 @@ func (g *exprGen) Gen(typ string, depth int, wide bool) []TExpr {
 				new(builder).s(`!`).e(sub("bool")).done("not"),
 				new(builder).e(subRef()).s(` && `).e(subRef()).done("and"),
 				new(builder).s(`ns::fn(`).e(sub("string")).s(`)`).done("call-dynamic-param"),
+				new(builder).s(`vf(`).e(subRef()).s(`, `).e(subRef()).s(`)`).done("call-of-inconvertible-type"),
 			)
 		}
 	case "list":
